@@ -1,6 +1,6 @@
 (* C13 - correspondence driver: a case carries the module descriptors, scripts, actions, the number of
    loop turns and what the implementation did; check_case re-runs the model and compares. *)
-From Coq Require Import List Arith ZArith Bool.
+From Coq Require Import List Arith ZArith Bool Uint63.
 Import ListNotations.
 Require Import FV.Base.Util FV.Gen.C13 FV.C13.Model.
 Local Open Scope Z_scope.
@@ -18,6 +18,25 @@ Definition levent_eqb (a b : levent) : bool :=
   | _, _ => false
   end.
 
+(* the observed call log is written with primitive integers (cheap to parse): kind, time, two arguments *)
+Inductive rawev := RE (k t a b : int).
+Definition zi (i : int) : Z := Uint63.to_Z i.
+Definition ni (i : int) : nat := Z.to_nat (Uint63.to_Z i).
+Definition ev_of (r : rawev) : levent :=
+  match r with
+  | RE k t a b =>
+      match ni k with
+      | 0%nat => LTurn (zi t)
+      | 1%nat => LWait (zi t) (zi a)
+      | 2%nat => LMain (zi t) (ni a)
+      | 3%nat => LRead (zi t) (ni a) (ni b)
+      | 4%nat => LMRead (zi t) (ni a) (ni b)
+      | 5%nat => LWinit (zi t) (ni a)
+      | 6%nat => LIread (zi t) (ni a)
+      | _ => LStarted (zi t)
+      end
+  end.
+
 (* final PollInfo of a polled module as observed on the implementation *)
 Record pobs := {
   o_interval : Z; o_last_main : Z; o_last_slow : Z; o_fast : bool;
@@ -33,7 +52,7 @@ Record case := {
   c_script : list (Z * outcome);
   c_acts : list (Z * action);
   (* observation *)
-  c_log : list levent;             (* chronological *)
+  c_log : list rawev;              (* chronological *)
   c_end : nat;                     (* 0 turn budget used up, 1 thread returned, 2 thread died *)
   c_now : Z;
   c_flag : bool;
@@ -70,7 +89,7 @@ Fixpoint all2 {A B} (f : A -> B -> bool) (a : list A) (b : list B) : bool :=
 
 Definition check_case (c : case) : bool :=
   let s := model_final c in
-  list_eqb levent_eqb (rev (log s)) (c_log c)
+  list_eqb levent_eqb (rev (log s)) (map ev_of (c_log c))
   && Nat.eqb (end_code s) (c_end c)
   && Z.eqb (now s) (c_now c)
   && Bool.eqb (ev s) (c_flag c)
